@@ -188,6 +188,16 @@ def sc_refit(cx, minimizer, change):
     V0 = pb.total_cov()
     for mn in O.leading_minors(V0):
         cx.assume(mn > 0)
+    # read BEFORE refitting: the cost of the new configuration at the values of the first fit -- what a fresh fit brought to
+    # the same configuration and values reports (nothing stays pinned to the cost node the first fit minimised)
+    pv = list(fit.parameter_values)
+    pb2 = B.build(cx, "xy", minimizer, cost="chi2", model="lin", sources=[("SA", "y", "data")], rho=0)
+    if change == "add-correlated":
+        pb2.add_source("SA", "late", axis="y", reference="data", rho="sym")
+    elif change == "add-matrix":
+        pb2.add_source("MC", "late", axis="y", reference="data")
+    pb2.fit.set_all_parameter_values(pv)
+    cx.eq(tag + ":cost-read-before-the-refit==cost-of-a-fresh-fit-in-the-new-configuration", fit.cost_function_value, pb2.fit.cost_function_value)
     stubs.reset()
     fit.do_fit()
     pw = getattr(fit, "_cost_function_pointwise", None)
